@@ -9,7 +9,7 @@ import sys
 ROOT = os.path.join(os.path.dirname(os.path.dirname(os.path.abspath(__file__))), "coq", "theories")
 
 
-STANDALONE = {"AckProofs", "LocksProofs", "LedgerProofs", "LedgerUpdProofs", "PoolProofs", "WindowProofs", "MicroProofs", "MicroStats", "MicroBound", "MicroBal", "MicroAll", "MicroProv", "MicroLedger", "MicroFifo", "MicroAck", "MicroPut", "MicroCharged", "MicroFlow", "MicroHeld", "PrecondProofs"}
+STANDALONE = {"AckProofs", "LocksProofs", "LedgerProofs", "LedgerUpdProofs", "PoolProofs", "WindowProofs", "MicroProofs", "MicroStats", "MicroBound", "MicroBal", "MicroAll", "MicroProv", "MicroLedger", "MicroFifo", "MicroAck", "MicroPut", "MicroCharged", "MicroFlow", "MicroHeld", "MicroBoundAll", "PrecondProofs"}
 
 
 def statements(modname):
@@ -114,8 +114,8 @@ spec("C07_micro", "put split at its schedule points: both presence checks from a
 spec("C08_micro", "put_or_update behind the flag check is Window.v's first half", [M], [
     (M, "mupsert_enter_is_half1", None),
 ])
-spec("C01_micro", "The bound on the total under every interleaving of the micro steps", [M, "MicroBound", "MicroLedger"], [
-    ("MicroBound", "micro_used_bounded_run", None), ("MicroLedger", "micro_ledger_exact_all", None), (M, "micro_accounting_exact", None), (M, "mput_atomic", None),
+spec("C01_micro", "The bound on the total under every interleaving of the micro steps", [M, "MicroBound", "MicroLedger", "MicroBoundAll"], [
+    ("MicroBoundAll", "micro_used_bounded_all", None), ("MicroBound", "micro_used_bounded_run", None), ("MicroLedger", "micro_ledger_exact_all", None), (M, "micro_accounting_exact", None), (M, "mput_atomic", None),
 ])
 spec("C16_micro", "Key and weight balances at every state of every micro schedule, all windows included", [M, "MicroBal"], [
     ("MicroBal", "mbal_step", None), ("MicroBal", "micro_balances_run", None),
